@@ -85,7 +85,7 @@ TRANS_RULES = [
     S(r'const auto& sm = ([^;]*);', r'const struct symbol* sm = &(\1);', name='R5:sm'), S(r'\bsm\.(idx|term)\b', r'sm->\1', name='R5:sm.member'),
     S(r'states\[i\]\.kernel == kernel', 'cbitset_eq(&states__kernel[i], &kernel)', name='R4:cbitset=='),
     S(r'entry->has_sr_conflict = true;', 'entry->has_sr_conflict = 1;', min=2, name='R15:bool->size8_t'),
-    S(r'(?<![\w.])add_situation\(new_state_idx,', 'vx_add_situation_any(new_state_idx,', name='abstract callee: add_situation (its own contract is for one ghost-decoded item)'),
+    S(r'(?<![\w.])add_situation\(new_state_idx,', 'vx_add_situation_any(new_state_idx,', min=0, name='abstract callee: add_situation (its own contract is for one ghost-decoded item)'),
 ]
 F('transitions', r'constexpr\s+void\s+transitions\(size16_t state_idx,\s*size16_t symbol_idx,\s*const situation_vector& symbol_situations\)',
   'void transitions(size16_t state_idx, size16_t symbol_idx, const struct sitvec* symbol_situations)', scope=SA, rules=TRANS_RULES + OBJ)
@@ -96,12 +96,29 @@ CLOSURE_RULES = [
     S(r'const utils::slice& sl = ([^;]*);', r'const struct utils__slice* sl = &(\1);', name='R5:sl'), S(r'\bsl\.', 'sl->', min=3),
     S(r'const term_subset& first = make_right_side_slice_first\(ri,', 'const struct cbitset* first = vx_rss_first(ri,', name='R5:first / abstract callee'),
     S(r'(?<![\w.>])first\.test\(', 'cbitset_test(first, ', min=2, name='R4:first.test'),
-    S(r'make_right_side_slice_empty\(ri,', 'vx_rss_empty(ri,', name='abstract callee: make_right_side_slice_empty'),
-    S(r'(?<![\w.])add_situation\(state_idx,', 'vx_add_situation_any(state_idx,', min=3, name='abstract callee: add_situation'),
+    S(r'make_right_side_slice_empty\(ri,', 'vx_rss_empty(ri,', min=0, name='abstract callee: make_right_side_slice_empty'),
+    S(r'(?<![\w.])add_situation\(state_idx,', 'vx_add_situation_any(state_idx,', min=0, name='abstract callee: add_situation'),
     S(r'\bsm\.(idx|term)\b', r'sm->\1', min=2, name='R5:sm.member'),
-    S(r'(?<![\w.])make_situation_idx\(', 'vx_enc(', min=2, name='abstract callee: make_situation_idx (any encoding)'),
+    S(r'(?<![\w.])make_situation_idx\(', 'vx_enc(', min=0, name='abstract callee: make_situation_idx (any encoding)'),
 ]
 F('closure', r'constexpr\s+void\s+closure\(size16_t state_idx,\s*size32_t sit_idx\)', 'void closure(size16_t state_idx, size32_t sit_idx)', scope=SA, rules=CLOSURE_RULES + OBJ)
+
+
+# ---- FIRST / nullable (mutually recursive, memoised): each is verified with the other three replaced by abstract contracts over ghost tables
+FN_COMMON = [S(r'\bs\.(term|idx|start|n)\b', r's->\1', min=0, name='R5:s.member'),
+             S(r'const utils::slice& s = ([^;]*);', r'const struct utils__slice* s = &(\1);', min=0, name='R5:slice&')]
+F('make_right_side_slice_first', r'constexpr\s+const\s+term_subset&\s+make_right_side_slice_first\(const rule_info& ri,\s*size_t start\)',
+  'const struct cbitset* make_right_side_slice_first(const struct rule_info* ri, size_t start)', scope=SA,
+  rules=[S(r'auto& res = ([^;]*);', r'struct cbitset* res = &(\1);', name='R5:res'), S(r'\bres\.(set|add)\(', r'cbitset_\1(res, ', min=2, name='R4:res.method'),
+         S(r'make_nterm_first\(', 'vx_nterm_first(', min=0, name='abstract callee: make_nterm_first'), S(r'make_nterm_empty\(', 'vx_nterm_empty(', min=0, name='abstract callee: make_nterm_empty'),
+         S(r'\bri\.', 'ri->', min=3)] + FN_COMMON + OBJ)
+F('make_nterm_first', r'constexpr\s+const\s+term_subset&\s+make_nterm_first\(size16_t nt\)', 'const struct cbitset* make_nterm_first(size16_t nt)', scope=SA,
+  rules=[Call(r'nterm_first\[nt\]\.add', 'cbitset_add(&nterm_first[nt], {0})', name='R4:add'), S(r'make_right_side_slice_first\(ri, 0\)', 'vx_rss_first0(ri, 0)', min=0, name='abstract callee: make_right_side_slice_first'),
+         S(r'return nterm_first\[nt\];', 'return &nterm_first[nt];', min=2, name='R5:return-ref')] + FN_COMMON + OBJ)
+F('make_right_side_slice_empty', r'constexpr\s+bool\s+make_right_side_slice_empty\(const rule_info& ri,\s*size_t start\)', 'bool make_right_side_slice_empty(const struct rule_info* ri, size_t start)', scope=SA,
+  rules=[S(r'auto idx = ', 'size_t idx = ', name='R6'), S(r'make_nterm_empty\(', 'vx_nterm_empty(', min=0, name='abstract callee: make_nterm_empty'), S(r'\bri\.', 'ri->', min=3)] + FN_COMMON + OBJ)
+F('make_nterm_empty', r'constexpr\s+bool\s+make_nterm_empty\(size16_t nt\)', 'bool make_nterm_empty(size16_t nt)', scope=SA,
+  rules=[S(r'make_right_side_empty\(gi\.rule_infos\[([^\]]*)\]\)', r'vx_rs_empty0(&gi.rule_infos[\1])', name='abstract callee: make_right_side_empty')] + FN_COMMON + OBJ)
 
 
 def key_fragment(rx):
